@@ -2,6 +2,7 @@ import LinOp.Core.Parse
 import LinOp.C06.Model
 /-! Line-protocol driver for the C06 model (no Mathlib).
   sel <root|rootinv|diag> <base|kron> <n1,n2,..> <maxChol> <maxRoot> <fast 0/1> <method|none> <cholOk 0/1> <cache: s d l bits e.g. 000>
+  hist <n> <entry:method:maxChol:maxRoot:fast;…>   source (own | hit:i | side:i) of every result of a call history
   choose <n> <maxChol> <fast> <cache>
   kron <m> <n> <p> <q> <A> <B>          exact Kronecker product in the library's index order
   upper <n> <L>                         upper factor from the lower one
@@ -59,6 +60,18 @@ def runSvd (sg : Rat → Rat) (n q w : String) : String :=
     out u ++ " | " ++ showList showRat ((List.finRange n).map s) ++ " | " ++ out v
   | _, _, _ => "bad-op"
 
+def showSrc : Src → String
+  | .own => "own" | .hit i => s!"hit:{i}" | .side i => s!"side:{i}"
+
+def parseCall? (s : String) : Option (Entry × Option Method × Cfg) :=
+  match s.splitOn ":" with
+  | [e, m, mc, mr, fast] =>
+    match (match e with | "root" => some Entry.root | "rootinv" => some Entry.rootinv | "diag" => some Entry.diag | _ => none),
+          parseMethod? m, mc.toNat?, mr.toNat? with
+    | some e, some m, some mc, some mr => some (e, m, mkCfg mc mr fast "000")
+    | _, _, _, _ => none
+  | _ => none
+
 def run (line : String) : String :=
   match words line with
   | ["sel", op, kind, ns, mc, mr, fast, meth, cok, cache] =>
@@ -79,6 +92,10 @@ def run (line : String) : String :=
           | none => "error RuntimeError"
       | _, _, _ => "bad-op"
     | _, _, _, _ => "bad-op"
+  | ["hist", n, calls] =>
+    match n.toNat?, (calls.splitOn ";").mapM parseCall? with
+    | some n, some cs => showList showSrc (hrun n cs)
+    | _, _ => "bad-op"
   | ["choose", n, mc, fast, cache] =>
     match n.toNat?, mc.toNat? with
     | some n, some mc => showMethod (chooseRootMethod n (mkCfg mc 0 fast cache))
